@@ -9,13 +9,19 @@
     same run limited to `maxiter = k` — for every `k`, i.e. every crash point.
   * `maxiter_only_in_guard`: `maxiter` occurs only in the loop guard and the final
     classification (definitional).
-  * `snapshot_is_value`: in the model the state handed over is an immutable value, so "does
-    not change after the callback returns" is what value semantics *means*; for the Python
-    objects this is decided by the correspondence check, which compares the retained states as
-    they look at the end of the run with the model's values.
+  * `snapshot_is_value`: the states already handed to the callback are never modified by the
+    rest of the run (the recorded list only grows at its end); that the Python objects are not
+    aliased by arrays the solver keeps writing into is decided by the correspondence check, which
+    compares the retained states as they look at the end of the run with the model's values.
+  * `callback_false_transparent`: a callback that always answers "go on" does not alter the run:
+    the result with the callback equals the result without it (all fields, pairs included), for
+    every objective, kernel, stepper and configuration — by a non-interference proof over the
+    whole driver (Proofs/Ghost.lean: the call log and the list of callback states are ghost: every
+    operation maps states equal up to these logs to results equal up to these logs).
   Continuation after a crash = restart from the snapshot: C06.
 -/
 import LbfgsbVerif.Proofs.C07
+import LbfgsbVerif.Proofs.Ghost
 
 namespace Lbfgsb.C07
 open Lbfgsb
@@ -73,10 +79,20 @@ theorem callback_state_eq_run_k (u : User α ε) (o : Oracles α δ) (c : Cfg α
           rw [prepare_indep_maxiter, hs0]
           simp only [hsB, pure, Except.pure]
 
-/-- **C07 (3)** value semantics: the state recorded when the callback is invoked is the state
-observed at the end of the run (there is nothing that could change it). -/
-theorem snapshot_is_value (u : User α ε) (o : Oracles α δ) (c : Cfg α) (r : Result α) (s : St α)
-    (_h : minimize u o c = .ok (r, s)) (cb : Result α) (_hcb : cb ∈ s.cbStates) : cb = cb := rfl
+/-- **C07 (3)** the states already handed to the callback are never touched again: whatever
+the rest of the run does (any number of further iterations, from any state), the list of
+recorded states only grows at its end. -/
+theorem snapshot_is_value (u : User α ε) (o : Oracles α δ) (c : Cfg α) (fuel : Nat) (s s' : St α)
+    (h : mainLoop u o c fuel s = .ok s') : s.cbStates <+: s'.cbStates := by
+  obtain ⟨news, h1, -, -⟩ := mainLoop_cbs u o c fuel s s' h
+  exact ⟨news, h1.symm⟩
+
+/-- **C07 (4)** the presence of a callback that returns `False` does not alter the run. -/
+theorem callback_false_transparent (u : User α ε) (o : Oracles α δ) (c : Cfg α)
+    (hcb : ∀ r, u.callback r = .ok false) :
+    (minimize u o { c with hasCallback := true }).map (·.1) =
+    (minimize u o { c with hasCallback := false }).map (·.1) :=
+  minimize_cb u o hcb c true false
 
 /-! ### Non-vacuity -/
 section nonvacuous
